@@ -494,7 +494,17 @@ def t8(cx):
                 "order": lambda: (lab.array("Arr2x3Float64", (2, 3), (0, 1), F), lab.array("Arr2x3Float64", (2, 3), (1, 0), F)),
                 "dynorder": lambda: (lab.array("ArrNx3Float64", (None, 3), (0, 1), F), lab.array("ArrNx3Float64", (None, 3), (1, 0), F)),
                 "struct": lambda: (lab.struct("Pair", [("x", F), ("y", I32)]), lab.struct("Pair", [("y", I32), ("x", F)])),
+                # two classes of DIFFERENT names declared with the same xo.Field objects (a common field table); the
+                # header slots of the dynamic fields sit at other offsets in the second one
+                "shared-fields": lambda: shared(),
             }
+
+            def shared():
+                Field, I64 = g("struct", "Field"), g("scalar", "Int64")
+                AF = lab.array("ArrNFloat64", (None,), (0,), F)
+                fa, fb = I.call(Field, [AF], {}), I.call(Field, [AF], {})
+                return lab.struct("Base", [("n", I64), ("a", fa), ("b", fb)]), lab.struct("Extended", [("n", I64), ("m", I64), ("a", fa), ("b", fb)])
+
             for key, f in mk.items():
                 X, Y = f()
                 pairs = [(key, X, Y)]
@@ -517,7 +527,7 @@ def t8(cx):
         return out
 
     alone, after = world(False), world(True)
-    LAB = {"order": "Float64[2,3] after Float64[2:1,3:0]... (C-order class first, then the other-order class of the same name)", "dynorder": "Float64[:,3] of another axis order, same name", "struct": "struct Pair{y, x} after struct Pair{x, y}", "array-of-struct": "Pair{y,x}[:] after Pair{x,y}[:]"}
+    LAB = {"order": "Float64[2,3] after Float64[2:1,3:0]... (C-order class first, then the other-order class of the same name)", "dynorder": "Float64[:,3] of another axis order, same name", "struct": "struct Pair{y, x} after struct Pair{x, y}", "array-of-struct": "Pair{y,x}[:] after Pair{x,y}[:]", "shared-fields": "Extended{n, m, a, b} after Base{n, a, b} declared with the same xo.Field objects for a and b"}
     for key in alone:
         for what in alone[key]:
             a_, b_ = alone[key][what], after[key][what]
@@ -528,5 +538,5 @@ def t8(cx):
                 la, lb = a_.splitlines(), b_.splitlines()
                 k = next((i for i, (x, y) in enumerate(zip(la, lb)) if x != y), min(len(la), len(lb)))
                 cx.bad(None, construct=f"{LAB[key]}: {what} differs from what the class gets alone (line {k}: `{(lb[k] if k < len(lb) else '<end>').strip()[:80]}` instead of `{(la[k] if k < len(la) else '<end>').strip()[:80]}`)",
-                       detail="the generated text depends on what was generated before under the same NAME: the second class gets accessors computed for the first one's layout (other strides / field offsets), although declarations and names match and everything compiles", anchor="capi::gen_code", sub="name")
+                       detail=("the generated text depends on what was generated before for ANOTHER class declared with the same Field objects: its accessors read the field position from the first class's header slot" if key == "shared-fields" else "the generated text depends on what was generated before under the same NAME: the second class gets accessors computed for the first one's layout (other strides / field offsets), although declarations and names match and everything compiles"), anchor="capi::gen_code", sub="name")
     cx.floor(8, "same-named class pairs x (API, declarations)")
